@@ -802,6 +802,9 @@ def run(ctx: Ctx) -> int:
             fail("glue", f"wrong-class:{case[0]}", case, f"Document() on {case}: expected {want}, got {kind} {det}")
     for k, v in sorted(tally.items()):
         ctx.dist(k, v)
+    # ---------- the bundled command-line tool reports the problem instead of crashing
+    for sig, case, detail in cli_oracle(ctx):
+        fail("glue", sig, case, detail)
     # real damaged files first, then single members, then injected faults
     for group in ("glue", "member", "loader"):
         for sig, case, detail in fails[group]:
@@ -812,6 +815,66 @@ def run(ctx: Ctx) -> int:
         ctx.notes.append("foreign exceptions raised after container loading had finished (not in scope of C17, e.g. a damaged member that "
                          f"fails the sniff is kept as an opaque blob and the document model later misses its objects): {elsewhere}")
     return common.finish(ctx, search)
+
+
+def cli_oracle(ctx: Ctx):
+    """cat-numbers (numbers_parser._cat_numbers.main, in-process) on paths that are not intact Numbers containers:
+    it must write a one-line message to stderr and exit with status 1 - whatever the path looks like."""
+    import contextlib
+    import io
+    import sys
+    from numbers_parser import _cat_numbers
+    out = []
+    src = common.REPO / "src" / "numbers_parser" / "data" / "empty.numbers"
+    blob = src.read_bytes() if src.is_file() else b""
+    names = ["plain.numbers", "Budget%202024.numbers", "100%.numbers", "50% off %s.numbers", "a{0}b{}.numbers", "sp ace's \u00e9.numbers",
+             "%(name)s.numbers", "wrong-suffix.txt", "%d.txt"]
+    kinds = ["missing", "empty", "truncated", "not-zip", "bitflip"]
+    rng = ctx.rng
+    d = ctx.tmp / "cli"
+    d.mkdir(exist_ok=True)
+    for name in names:
+        for kind in kinds:
+            p = d / f"{kind}-{name}"
+            if kind == "empty":
+                p.write_bytes(b"")
+            elif kind == "truncated":
+                p.write_bytes(blob[: max(1, len(blob) // 3)])
+            elif kind == "not-zip":
+                p.write_bytes(b"this is not a zip container\n" * 4)
+            elif kind == "bitflip":
+                b = bytearray(blob)
+                for _ in range(8):
+                    if b:
+                        b[rng.randrange(len(b))] ^= 1 << rng.randrange(8)
+                p.write_bytes(bytes(b))
+            for opts in ([], ["-T"], ["-b"]):
+                argv = ["cat-numbers", *opts, str(p)]
+                err, outp = io.StringIO(), io.StringIO()
+                status, exc = 0, None
+                old = sys.argv
+                sys.argv = argv
+                try:
+                    with contextlib.redirect_stderr(err), contextlib.redirect_stdout(outp), warnings.catch_warnings():
+                        warnings.simplefilter("ignore")
+                        try:
+                            _cat_numbers.main()
+                        except SystemExit as e:
+                            status = e.code if isinstance(e.code, int) else 1
+                        except Exception as e:  # noqa: BLE001
+                            exc = e
+                finally:
+                    sys.argv = old
+                ctx.count("cli")
+                case = ["cli", kind, name, opts]
+                if exc is not None:
+                    out.append((f"cli-crash:{type(exc).__name__}", case, f"cat-numbers {opts} {p.name!r} ({kind}) crashed with {type(exc).__name__}: {exc}"))
+                elif kind in ("missing", "empty", "not-zip") or name.endswith(".txt"):
+                    lines = [x for x in err.getvalue().splitlines() if x.strip()]
+                    if status != 1 or len(lines) != 1:
+                        out.append(("cli-error-not-reported", case,
+                                    f"cat-numbers {opts} {p.name!r} ({kind}): exit status {status}, stderr lines {len(lines)}"))
+    return out
 
 
 def search(ctx: Ctx, broken) -> list:
@@ -863,6 +926,14 @@ def replay(path: str) -> int:
         out, _ = impl_store_blob(case[1], bytes.fromhex(case[2]))
         if not member_ok(out):
             bad = f"_store_blob({case[1]!r}, {case[2][:40]}...) raised {out}"
+    elif case[0] == "cli":
+        sub = common.Ctx("C17", "quick", 0, LEVEL)
+        try:
+            hits = [x for x in cli_oracle(sub) if x[1][1:3] == case[1:3]]
+        finally:
+            sub.cleanup()
+        if hits:
+            bad = hits[0][2]
     elif case[0] == "inject":
         _, fxn, site, k, ename = case
         exc, code = next((e, c) for e, c in exc_table() if (e.__name__ if isinstance(e, type) else "UnicodeDecodeError") == ename)
